@@ -2,6 +2,8 @@ import Netconan.Model.Lines
 import Netconan.Model.Decoders
 import Netconan.Proofs.WordsNoSurvival
 import Netconan.Proofs.QuadCheck
+import Netconan.Proofs.LangCheck
+import Netconan.Proofs.Ipv4Pinned
 import Netconan.Model.Md5
 import Netconan.Pinned.Patterns
 import Netconan.Generated.Patterns
@@ -156,6 +158,10 @@ def faCmd (env : FaEnv) (objs : List (String × FaObj)) (ws : List String) : Opt
       | .type7 => "cisco_type7" | .numeric => "numeric" | .hex => "hexadecimal" | .md5 => "md5"
       | .text => "text" | .sha512 => "sha512" | .jun9 => "juniper_type9"), objs)
   | ["type7", salt, v] => some ("ok " ++ showCps (type7 salt.toNat! (parseCps v)), objs)
+  | ["lang", fam, v] =>
+    let core := if fam == "6" then NoSurvival.coreOf Pinned.Patterns.ipv6 else NoSurvival.core4
+    some (match NoSurvival.langB core (parseCps v) with
+      | some true => "ok 1" | some false => "ok 0" | none => "ok oof", objs)
   | ["quad", v] => some (if NoSurvival.isQuadB (parseCps v) then "ok 1" else "ok 0", objs)
   | ["t7dec", v] => some ("ok " ++ showCps (type7Decode (parseCps v)), objs)
   | ["unhex", v] => some ("ok " ++ showCps (unhex (parseCps v)), objs)
